@@ -315,6 +315,13 @@ def l4(e: Engine, rep: Report):
         return isinstance(v, ast.Call) and ast.unparse(v.func) == 'super'
     for name, (op, cnt, order) in DEQUE_SPEC.items():
         where = DEQUE + '.' + name
+        if name not in c.methods and name in getattr(c, 'class_attrs', {}):
+            rep.unknown('L4', where, 'override present',
+                        '%s is bound in the class body to `%s`: a method '
+                        'built at class-creation time is not read'
+                        % (name, ' '.join(ast.unparse(
+                            c.class_attrs[name]).split())[:50]))
+            continue
         if name not in c.methods:
             rep.bad('L4', where, 'override present',
                     'BlockingDeque no longer overrides %s: the deque '
@@ -373,6 +380,13 @@ def l4(e: Engine, rep: Report):
     # releases is len(self) after the super call minus len(self) before it
     for name in ('extend', 'extendleft'):
         where = DEQUE + '.' + name
+        if name not in c.methods and name in getattr(c, 'class_attrs', {}):
+            rep.unknown('L4', where, 'override present',
+                        '%s is bound in the class body to `%s`: a method '
+                        'built at class-creation time is not read'
+                        % (name, ' '.join(ast.unparse(
+                            c.class_attrs[name]).split())[:50]))
+            continue
         if name not in c.methods:
             rep.bad('L4', where, 'override present',
                     'BlockingDeque no longer overrides %s' % name)
